@@ -48,6 +48,8 @@ InitRep ==
     bed |-> NInfQ, hotend |-> NInfQ, chamber |-> NInfQ,
     spin |-> "off", pmode |-> "off", coolant |-> "off", swap |-> "off", halt |-> "off",
     units |-> "millimeters", plane |-> "xy", fmode |-> "units/min", emode |-> "absolute",
+    tunits |-> "celsius", timeunits |-> "seconds", dir |-> "clockwise",
+    res |-> Q(1),          \* the recorder sets the resolution to one unit before the first call
     params  |-> [x \in Letters |-> NoneQ],
     sparams |-> [x \in Letters |-> NoneQ],
     bounds |-> [axes |-> [set |-> FALSE, lo |-> <<0, 0, 0>>, hi |-> <<0, 0, 0>>],
@@ -251,6 +253,58 @@ DoSetTemp(r, which, v) ==
                     [] OTHER -> [r EXCEPT !.chamber = Q(v)]), <<Ln(<<W("M", code), W("S", v)>>)>>)
 
 -----------------------------------------------------------------------------
+(* The remaining public calls (gcode_builder.py): modal setters, unit       *)
+(* systems, direction, resolution, dwell, fan, query, comment, bounds.      *)
+ModeCode(call, mode) ==
+  CASE call = "set_plane" -> (CASE mode = "xy" -> 170 [] mode = "zx" -> 180 [] mode = "yz" -> 190 [] OTHER -> -1)
+    [] call = "set_feed_mode" -> (CASE mode = "1/time" -> 930 [] mode = "units/min" -> 940 [] mode = "units/rev" -> 950 [] OTHER -> -1)
+    [] call = "set_extrusion_mode" -> (CASE mode = "absolute" -> 820 [] mode = "relative" -> 830 [] OTHER -> -1)
+    [] call = "set_length_units" -> (CASE mode = "inches" -> 200 [] mode = "millimeters" -> 210 [] OTHER -> -1)
+    [] OTHER -> -1
+ModeField(call) == CASE call = "set_plane" -> "plane" [] call = "set_feed_mode" -> "fmode"
+                     [] call = "set_extrusion_mode" -> "emode" [] OTHER -> "units"
+\* set_length_units() converts the resolution to the new unit when the unit changes (fix F17); the converted value
+\* is a float the integer grid cannot hold: the model only says "some other positive number" (C12_Units decides it)
+Scaled == [k |-> "scaled", v |-> 0, s |-> 0, t |-> FALSE]
+DoModal(r, call, mode) ==
+  LET code == ModeCode(call, mode)
+      r1 == IF call = "set_length_units" /\ mode # r.units THEN [r EXCEPT !.res = Scaled] ELSE r IN
+  IF code < 0 THEN Fail(r, "ValueError")
+  ELSE Ok(Written([r1 EXCEPT ![ModeField(call)] = mode]),
+          <<Ln(<<W(IF call = "set_extrusion_mode" THEN "M" ELSE "G", code)>>)>>)
+
+\* state only, nothing written (so a pending halt mode is NOT cleared)
+StateModes(call) == CASE call = "set_time_units" -> {"seconds", "milliseconds"}
+                      [] call = "set_temperature_units" -> {"celsius", "kelvin"}
+                      [] call = "set_direction" -> {"clockwise", "counter"} [] OTHER -> {}
+StateField(call) == CASE call = "set_time_units" -> "timeunits" [] call = "set_temperature_units" -> "tunits" [] OTHER -> "dir"
+DoStateOnly(r, call, mode) ==
+  IF mode \notin StateModes(call) THEN Fail(r, "ValueError") ELSE Ok([r EXCEPT ![StateField(call)] = mode], <<>>)
+DoSetResolution(r, v) == IF v <= 0 THEN Fail(r, "ValueError") ELSE Ok([r EXCEPT !.res = Q(v)], <<>>)
+
+\* one line, no tracked state
+DoSleep(r, v) == IF v < 0 THEN Fail(r, "ValueError") ELSE Ok(Written(r), <<Ln(<<W("G", 40), W("P", v)>>)>>)
+DoFan(r, v, n, top) ==       \* top = 255 in the units of v
+  IF n < 0 \/ v < 0 \/ v > top THEN Fail(r, "ValueError")
+  ELSE Ok(Written(r), <<Ln(<<W("M", 1060), W("P", n), W("S", v)>>)>>)
+DoQuery(r, mode) ==
+  IF mode \notin {"position", "temperature"} THEN Fail(r, "ValueError")
+  ELSE Ok(Written(r), <<Ln(<<W("M", IF mode = "position" THEN 1140 ELSE 1050)>>)>>)
+DoComment(r) == Ok(Written(r), <<CLn>>)
+
+\* BoundManager.set_bounds: min >= max is refused; for points `<` is "<= on every axis and < on one"
+BoundKey(name) == CASE name = "feed-rate" -> "feed" [] name = "tool-power" -> "power" [] name = "tool-number" -> "toolnum"
+                    [] name = "bed-temperature" -> "bed" [] name = "hotend-temperature" -> "hotend" [] OTHER -> "chamber"
+ScalarBoundNames == {"feed-rate", "tool-power", "tool-number", "bed-temperature", "hotend-temperature", "chamber-temperature"}
+PtLess(a, b) == (\A i \in 1..3 : a[i] <= b[i]) /\ (\E i \in 1..3 : a[i] < b[i])
+DoSetBoundsScalar(r, name, lo, hi) ==
+  IF name \notin ScalarBoundNames \/ lo >= hi THEN Fail(r, "ValueError")
+  ELSE Ok([r EXCEPT !.bounds = [r.bounds EXCEPT ![BoundKey(name)] = [set |-> TRUE, lo |-> lo, hi |-> hi]]], <<>>)
+DoSetBoundsAxes(r, lo3, hi3) ==
+  IF ~PtLess(lo3, hi3) THEN Fail(r, "ValueError")
+  ELSE Ok([r EXCEPT !.bounds.axes = [set |-> TRUE, lo |-> lo3, hi |-> hi3]], <<>>)
+
+-----------------------------------------------------------------------------
 (* One step: a public call with its arguments; the event is built in the    *)
 (* shape the recorder writes.                                                *)
 Fire(call, a, res) ==
@@ -331,31 +385,34 @@ SetFeed  == \E v \in Vals : Fire("set_feed_rate", [A0 EXCEPT !.val = Q(v)], DoSe
 SetTemp(which) ==
   \E v \in Vals : Fire("set_" \o which \o "_temperature", [A0 EXCEPT !.val = Q(v)], DoSetTemp(rep, which, v)) /\ UNCHANGED <<ctx, ph>>
 
-BoundKey(name) == CASE name = "feed-rate" -> "feed" [] name = "tool-power" -> "power" [] name = "tool-number" -> "toolnum"
-                    [] name = "bed-temperature" -> "bed" [] name = "hotend-temperature" -> "hotend" [] OTHER -> "chamber"
 SetBoundsAxes ==
   \E b \in BoxSet :
      /\ ~rep.bounds.axes.set /\ "axes" \in BoundNames
      /\ Fire("set_bounds", [A0 EXCEPT !.name = "axes", !.lo3 = <<Q(b[1]), Q(b[1]), Q(b[1])>>, !.hi3 = <<Q(b[2]), Q(b[2]), Q(b[2])>>],
-             Ok([rep EXCEPT !.bounds.axes = [set |-> TRUE, lo |-> <<b[1], b[1], b[1]>>, hi |-> <<b[2], b[2], b[2]>>]], <<>>))
+             DoSetBoundsAxes(rep, <<b[1], b[1], b[1]>>, <<b[2], b[2], b[2]>>))
      /\ UNCHANGED <<ctx, ph>>
 SetBoundsScalar(name) ==
   \E b \in RangeSet :
      /\ ~rep.bounds[BoundKey(name)].set /\ name \in BoundNames
-     /\ Fire("set_bounds", [A0 EXCEPT !.name = name, !.lo = Q(b[1]), !.hi = Q(b[2])],
-             Ok([rep EXCEPT !.bounds = [rep.bounds EXCEPT ![BoundKey(name)] = [set |-> TRUE, lo |-> b[1], hi |-> b[2]]]], <<>>))
+     /\ Fire("set_bounds", [A0 EXCEPT !.name = name, !.lo = Q(b[1]), !.hi = Q(b[2])], DoSetBoundsScalar(rep, name, b[1], b[2]))
      /\ UNCHANGED <<ctx, ph>>
 
-Modal(call, mode, field, code) ==
-  Fire(call, [A0 EXCEPT !.mode = mode],
-       Ok(Written([rep EXCEPT ![field] = mode]), <<Ln(<<W(IF code >= 820 /\ code <= 830 THEN "M" ELSE "G", code)>>)>>))
-  /\ UNCHANGED <<ctx, ph>>
+Modal(call, mode) == Fire(call, [A0 EXCEPT !.mode = mode], DoModal(rep, call, mode)) /\ UNCHANGED <<ctx, ph>>
 Modals ==
-  \/ Modal("set_plane", "xy", "plane", 170) \/ Modal("set_plane", "zx", "plane", 180) \/ Modal("set_plane", "yz", "plane", 190)
-  \/ Modal("set_feed_mode", "1/time", "fmode", 930) \/ Modal("set_feed_mode", "units/min", "fmode", 940)
-  \/ Modal("set_feed_mode", "units/rev", "fmode", 950)
-  \/ Modal("set_extrusion_mode", "absolute", "emode", 820) \/ Modal("set_extrusion_mode", "relative", "emode", 830)
-  \/ Modal("set_length_units", "inches", "units", 200) \/ Modal("set_length_units", "millimeters", "units", 210)
+  \/ \E m \in {"xy", "zx", "yz"} : Modal("set_plane", m)
+  \/ \E m \in {"1/time", "units/min", "units/rev"} : Modal("set_feed_mode", m)
+  \/ \E m \in {"absolute", "relative"} : Modal("set_extrusion_mode", m)
+  \/ \E m \in {"inches", "millimeters"} : Modal("set_length_units", m)
+StateOnly(call) ==
+  \E m \in StateModes(call) \cup {"bogus"} :
+     Fire(call, [A0 EXCEPT !.mode = m], DoStateOnly(rep, call, m)) /\ UNCHANGED <<ctx, ph>>
+SetResolution == \E v \in Vals : Fire("set_resolution", [A0 EXCEPT !.val = Q(v)], DoSetResolution(rep, v)) /\ UNCHANGED <<ctx, ph>>
+Sleep == \E v \in Vals : Fire("sleep", [A0 EXCEPT !.val = Q(v)], DoSleep(rep, v)) /\ UNCHANGED <<ctx, ph>>
+Fan == \E v \in Vals, n \in {-1, 0, 2} :
+         Fire("set_fan_speed", [A0 EXCEPT !.val = Q(v), !.val2 = Q(n)], DoFan(rep, v, n, 255)) /\ UNCHANGED <<ctx, ph>>
+Query == \E m \in {"position", "temperature", "bogus"} :
+           Fire("query", [A0 EXCEPT !.mode = m], DoQuery(rep, m)) /\ UNCHANGED <<ctx, ph>>
+Comment == Fire("comment", A0, DoComment(rep)) /\ UNCHANGED <<ctx, ph>>
 
 AddHook    == /\ ~ph /\ Fire("add_probe_hook", A0, Ok(rep, <<>>)) /\ ph' = TRUE /\ UNCHANGED ctx
 RemoveHook == /\ ph /\ Fire("remove_probe_hook", A0, Ok(rep, <<>>)) /\ ph' = FALSE /\ UNCHANGED ctx
@@ -373,6 +430,8 @@ Next ==
   \/ SetBoundsAxes \/ SetBoundsScalar("feed-rate") \/ SetBoundsScalar("tool-power")
   \/ SetBoundsScalar("tool-number") \/ SetBoundsScalar("bed-temperature")
   \/ Modals \/ AddHook \/ RemoveHook
+  \/ StateOnly("set_time_units") \/ StateOnly("set_temperature_units") \/ StateOnly("set_direction")
+  \/ SetResolution \/ Sleep \/ Fan \/ Query \/ Comment
 
 Spec == Init /\ [][Next]_vars
 
